@@ -194,15 +194,15 @@ theorem perMinute_ext (fuel : Nat) (sym : Nat) (real : Candle) (rest : List Cand
     split
     · exact EExt.refl _
     · have key : ∀ cur : Candle, EExt e
-          (match matchLoop u fuel e sym cur cands (chunkReselect sym real more) true with
+          (match matchLoop u fuel e sym cur cands (chunkReselect sym real c more) true with
            | (e1, cur') =>
              if e1.err.isSome then e1 else
              simulateChunk.perMinute u fuel sym real more (some c) (setCurrentPrice (addCandle e1 sym 1 c) sym cur'.c)
-               (if e1.log.length = e.log.length then cands else chunkReselect sym real more e1 cur')) := by
+               (if e1.log.length = e.log.length then cands else chunkReselect sym real c more e1 cur')) := by
         intro cur
-        have h := matchLoop_ext u fuel e sym cur cands (chunkReselect sym real more) true
+        have h := matchLoop_ext u fuel e sym cur cands (chunkReselect sym real c more) true
         revert h
-        generalize matchLoop u fuel e sym cur cands (chunkReselect sym real more) true = p
+        generalize matchLoop u fuel e sym cur cands (chunkReselect sym real c more) true = p
         intro h
         obtain ⟨e1, c'⟩ := p
         dsimp only at h ⊢
@@ -221,7 +221,7 @@ theorem simulateChunk_ext (fuel : Nat) (e : Engine M) (sym : Nat) (cs : List Can
     · rename_i real hreal
       have h1 : EExt e (if (executingOrders e sym real).length > 0 then
           simulateChunk.perMinute u fuel sym real cs none e
-            (if (executingOrders e sym real).length > 1 then sortExecutionOrders e (executingOrders e sym real) cs else executingOrders e sym real)
+            (if (executingOrders e sym real).length > 1 then sortExecutionOrders e (executingOrders e sym real) (fixChunk none cs) else executingOrders e sym real)
           else e) := by
         split
         · exact perMinute_ext u fuel sym real cs _ _ _
@@ -229,7 +229,7 @@ theorem simulateChunk_ext (fuel : Nat) (e : Engine M) (sym : Nat) (cs : List Can
       revert h1
       generalize (if (executingOrders e sym real).length > 0 then
           simulateChunk.perMinute u fuel sym real cs none e
-            (if (executingOrders e sym real).length > 1 then sortExecutionOrders e (executingOrders e sym real) cs else executingOrders e sym real)
+            (if (executingOrders e sym real).length > 1 then sortExecutionOrders e (executingOrders e sym real) (fixChunk none cs) else executingOrders e sym real)
           else e) = e1
       intro h1
       split
